@@ -694,6 +694,7 @@ func c04(r *Run) {
 	// --- a Parse that FAILED leaves nothing behind: the next Parse of a well-formed source yields that source's tree ---
 	c04AfterFailedParse(r)
 	parseVerdictStable(r, "")
+	nilTreeKeepsRegistry(r, "c04:")
 	// --- the file entry point: ParseFile(name) is Parse(what the file holds now) ---
 	parseFileRel(r, "")
 }
